@@ -125,7 +125,32 @@ func (node *Node) processUnconfirmedTx(ctx context.Context, tx handlers.TxData) 
 			return errors.Wrap(err, "fetch outputs")
 		}
 	} else {
+		if txState.State.MerkleProof != nil &&
+			node.blocks.Contains(txState.State.MerkleProof.BlockHeader.BlockHash()) {
+			// This tx was already sent to listeners and has been confirmed in a block that is still
+			// in the chain. It is just being announced again, so it is not a new tx.
+			logger.Info(ctx, "Tx already confirmed : %s", hash)
+			if _, err := node.txs.Remove(ctx, *hash, -1); err != nil {
+				return errors.Wrap(err, "Failed to remove from tx repo")
+			}
+			return nil
+		}
+
+		if txState.State.Cancelled {
+			// This tx was already sent to listeners and then cancelled by a confirmed conflicting
+			// tx. It is just being announced again, so it is not a new tx.
+			logger.Info(ctx, "Tx already cancelled : %s", hash)
+			if _, err := node.txs.Remove(ctx, *hash, -1); err != nil {
+				return errors.Wrap(err, "Failed to remove from tx repo")
+			}
+			return nil
+		}
+
 		logger.Info(ctx, "Updating tx state : %s", hash)
+		if txState.State.MerkleProof != nil {
+			// The block that confirmed this tx is no longer in the chain.
+			txState.State.MerkleProof = nil
+		}
 	}
 
 	txState.State.Safe = tx.Safe || newlySafe
@@ -133,7 +158,7 @@ func (node *Node) processUnconfirmedTx(ctx context.Context, tx handlers.TxData) 
 		txState.State.UnconfirmedDepth = 1
 	}
 
-	if len(conflicts) > 0 {
+	if len(conflicts) > 0 || txState.State.UnSafe || txState.State.Cancelled {
 		// Unsafe
 		txState.State.UnSafe = true
 		txState.State.Safe = false
